@@ -77,6 +77,21 @@ fn main() {
                 }
             }
         }
+        "cells" => {
+            // re-evaluate layout cells: JSON array of [object, key, modifiers, mode]
+            if args.len() < 3 {
+                usage();
+            }
+            let txt = std::fs::read_to_string(&args[2]).expect("read cells");
+            let v: serde_json::Value = serde_json::from_str(&txt).expect("parse cells");
+            for c in v.as_array().expect("array") {
+                let obj = c[0].as_str().expect("obj");
+                let key = keys::key_by_name(c[1].as_str().expect("key")).expect("key name");
+                let m = c[2].as_u64().expect("mods") as u32;
+                let h = keys::mode_by_name(c[3].as_str().expect("mode")).expect("mode name");
+                println!("{}", serde_json::json!({"cell": c, "out": tables::one_cell(obj, key, m, h)}));
+            }
+        }
         _ => usage(),
     }
 }
